@@ -46,6 +46,8 @@ FAMILIES = {
     'A': (['eq', 'eqb', 'eqpar', 'list2', 'tuple2', 'dict2', 'dict2r'], 2, 2),
     'M': (['eq', 'eqpos', 'list2', 'dictmix', 'dictmixr', 'dictenum',
            'dictenumr'], 2, 2),
+    'P': (['eq', 'list2', 'dictfs', 'dictfsr', 'dictcyc', 'dictcycr',
+           'dictcycm'], 3, 1),
     'B': (['eq', 'eqb', 'eqpar', 'eqpos', 'list2', 'tuple1', 'dict2',
            'dict2r', 'dictmix', 'dictmixr', 'dictenum', 'dictenumr'], 2, 2),
     'C': (['eq', 'list2', 'dict1'], 3, 2),
@@ -62,7 +64,8 @@ NCHUNK = 32
 
 
 def bounds(tier):
-  fams = ['A', 'M', 'S3', 'T'] if tier == 'quick' else ['B', 'C', 'S3', 'T']
+  fams = (['A', 'M', 'S3', 'T', 'P'] if tier == 'quick' else
+          ['B', 'C', 'S3', 'T', 'P'])
   return {'families': {f: FAMILIES[f] for f in fams},
           'alias_menu': ['eq', 'eq3'], 'alias_nodes': 4}
 
@@ -113,7 +116,8 @@ def build_canon(cfg):
 def classify(sa, sb):
   ka = [k for k, _ in sa]
   kb = [k for k, _ in sb]
-  if any(k.startswith(('dictmix', 'dictenum')) for k in ka + kb):
+  if any(k.startswith(('dictmix', 'dictenum', 'dictfs', 'dictcyc'))
+         for k in ka + kb):
     return 'mixed-key-dict'
   if any(k == 'eqpos' for k in ka + kb):
     return 'positional'
